@@ -11,6 +11,7 @@ executed by the real CPython:
 from __future__ import annotations
 
 import inspect
+import json
 import random
 import typing
 from pathlib import Path
@@ -292,15 +293,17 @@ def main(tier: str, replay: str | None = None):
                 "FuncSeq.tla: every sequence of <=L defs over names {f,g} and roles {plain,overload,property,setter,deleter} in module/class scope. "
                 "Non-trivial = shape with at least one default/variadic/keyword-only parameter, or well-formed def sequence mixing >= 2 roles; distinct by abstract case.")
     if replay:
-        import json
-
         with open(replay) as fh:
             rec = json.load(fh)
         c = rec["case"]["case"]
         print(rec["what"])
         if "prog" in c:
             res = tlc.must(tlc.run("FuncSeq", f"FuncSeq_{tier}.cfg", workers=8), allow_violations=True)
-            check_progs(run, griffe, [x for x in res.cases if x["prog"] == c["prog"] and x["scope"] == c["scope"]])
+            hit = [x for x in res.cases if x["prog"] == c["prog"] and x["scope"] == c["scope"]]
+            if not hit:
+                res = tlc.must(tlc.run("FuncSeq", f"FuncSeq_interleave_{tier}.cfg", workers=8), allow_violations=True)
+                hit = [x for x in res.cases if x["prog"] == c["prog"] and x["scope"] == c["scope"]]
+            check_progs(run, griffe, hit[:1])
         else:
             res = tlc.must(tlc.run("Params", f"Params_{'thorough'}.cfg", workers=1), allow_violations=True)
             keys = ["npos", "nargs", "ndef", "vararg", "nkw", "kwmask", "kwarg", "ctx", "annotated"]
@@ -313,8 +316,16 @@ def main(tier: str, replay: str | None = None):
     r2 = tlc.run("FuncSeq", f"FuncSeq_{tier}.cfg", workers=8 if tier == "thorough" else 1, timeout=900)
     tlc.must(r2)
     run.add_tlc(r2)
+    # interleaved overload series of several names pending at once: longer programs over {plain, overload}
+    r3 = tlc.run("FuncSeq", f"FuncSeq_interleave_{tier}.cfg", workers=8 if tier == "thorough" else 2, timeout=900)
+    tlc.must(r3)
+    run.add_tlc(r3)
     run.exhaustive = True
     check_params(run, griffe, r1.cases)
+    seen_progs = {json.dumps([c["prog"], c["scope"]], sort_keys=True) for c in r2.cases}
+    inter = [c for c in r3.cases if json.dumps([c["prog"], c["scope"]], sort_keys=True) not in seen_progs]
+    if not any(c["wf"] and sum(1 for d in c["prog"] if d["role"] == "overload") >= 2 and len({d["name"] for d in c["prog"] if d["role"] == "overload"}) == 2 for c in inter):
+        die("C02: interleave domain generated no well-formed program with two names' overload series (vacuous)")
     progs = r2.cases
     if tier == "thorough" and len(progs) > 60000:
         # all well-formed programs, plus a seeded sample of the rest (totality / drift only)
@@ -325,4 +336,5 @@ def main(tier: str, replay: str | None = None):
         run.exhaustive = False
         run.note(f"funcseq: replayed all {len(wf)} executable programs and 20000 sampled non-executable ones of {len(r2.cases)}")
     check_progs(run, griffe, progs)
+    check_progs(run, griffe, inter)
     run.finish()
